@@ -1,7 +1,7 @@
 """C09 bounded run-time contract (labelled bounded): a schema means the same however its declarations are arranged.
 
 One namespace with 14 mutually forward-referencing globals (types, a substitution group, a model group, an attribute group, list and union
-types, a notation) and 4 probe instances.  Arrangements: seeded permutations; 2-3 way splits into include files in a sub-directory;
+types, a notation) (with a keyref that refers to a key declared on another element) and 5 probe instances.  Arrangements: seeded permutations; 2-3 way splits into include files in a sub-directory;
 location spellings (relative, dotted, absolute, file URL, the same file included twice under two spellings); clear-and-rebuild; copy of
 the global maps followed by build(); pickle round trip.  Each arrangement must give the same global components and, for every probe, the
 same errors and the same decoded data as the reference arrangement.  Import order of two other namespaces is permuted as well.
@@ -11,9 +11,9 @@ from .common import pmap, result
 from .C01 import _cls
 XS = 'xmlns:xs="http://www.w3.org/2001/XMLSchema"'
 DECLS = [
-    '<xs:element name="root" type="t:RootT"/>',
+    '<xs:element name="root" type="t:RootT"><xs:keyref name="KR" refer="t:K"><xs:selector xpath="t:x"/><xs:field xpath="."/></xs:keyref></xs:element>',
     '<xs:complexType name="RootT"><xs:sequence><xs:element ref="t:head" maxOccurs="unbounded"/><xs:group ref="t:G" minOccurs="0"/></xs:sequence><xs:attributeGroup ref="t:AG"/></xs:complexType>',
-    '<xs:element name="head" type="t:BaseT"/>',
+    '<xs:element name="head" type="t:BaseT"><xs:key name="K"><xs:selector xpath="t:v"/><xs:field xpath="."/></xs:key></xs:element>',
     '<xs:element name="member" type="t:DerT" substitutionGroup="t:head"/>',
     '<xs:complexType name="BaseT"><xs:sequence><xs:element name="v" type="t:Code"/></xs:sequence></xs:complexType>',
     '<xs:complexType name="DerT"><xs:complexContent><xs:extension base="t:BaseT"><xs:sequence><xs:element name="w" type="t:Codes" minOccurs="0"/></xs:sequence></xs:extension></xs:complexContent></xs:complexType>',
@@ -32,6 +32,7 @@ PROBES = [
     '<t:root xmlns:t="urn:t" a="51"><t:head><t:v>-1</t:v></t:head></t:root>',
     '<t:root xmlns:t="urn:t"><t:member><t:v>1</t:v><t:w>51</t:w></t:member><t:y>2020-02-30</t:y></t:root>',
     '<t:root xmlns:t="urn:t"><t:head><t:v>1</t:v><t:w>1</t:w></t:head><t:x>maybe</t:x></t:root>',
+    '<t:root xmlns:t="urn:t"><t:head><t:v>7</t:v></t:head><t:x>7</t:x></t:root>',        # a keyref on the root that refers to a key declared on another element
 ]
 KINDS = ['permute', 'split', 'spell', 'twice', 'copy', 'pickle', 'imports', 'same-text']
 
@@ -101,7 +102,7 @@ def run(tier, seed, open_findings):
             if got != refs[ver]:
                 diff = got if got and got[0] == 'EXC' else ('globals differ' if got[0] != refs[ver][0] else 'probe results differ')
                 fails.append(dict(case=dict(ver=ver, kind=kind, seed=sd), observed=diff, required='same global components, errors and data as the reference arrangement'))
-        return [result('C09.arrangements', f'{len(jobs)} arrangements ({", ".join(KINDS)}) x 4 probe instances, both classes', len(jobs) * len(PROBES), fails,
+        return [result('C09.arrangements', f'{len(jobs)} arrangements ({", ".join(KINDS)}) x 5 probe instances, both classes', len(jobs) * len(PROBES), fails,
                        samples=[dict(kind='spell', note='the same file included twice under two spellings')], distinct=len(jobs))]
     finally:
         shutil.rmtree(root, ignore_errors=True)
